@@ -128,7 +128,9 @@ func (mavls *Store) MemSet(datas *types.StoreSet, sync bool) ([]byte, error) {
 	}()
 	if len(datas.KV) == 0 {
 		mlog.Info("store mavl memset,use preStateHash as stateHash for kvset is null")
-		mavls.trees.Store(string(datas.StateHash), nil)
+		// keep a tree that is still waiting under this hash: overwriting it with the
+		// marker would make Commit acknowledge the hash without writing anything
+		mavls.trees.LoadOrStore(string(datas.StateHash), nil)
 		return datas.StateHash, nil
 	}
 	tree := mavl.NewTree(mavls.GetDB(), sync, mavls.treeCfg)
@@ -178,7 +180,7 @@ func (mavls *Store) MemSetUpgrade(datas *types.StoreSet, sync bool) ([]byte, err
 	}()
 	if len(datas.KV) == 0 {
 		mlog.Info("store mavl memset,use preStateHash as stateHash for kvset is null")
-		mavls.trees.Store(string(datas.StateHash), nil)
+		mavls.trees.LoadOrStore(string(datas.StateHash), nil)
 		return datas.StateHash, nil
 	}
 	tree := mavl.NewTree(mavls.GetDB(), sync, mavls.treeCfg)
